@@ -123,78 +123,43 @@ func (b *Box) HandleMessage(msg *IncMessage) {
 	}
 }
 
-func (b *Box) getOrCreateMessagesByTopic(topic []byte) *storedMessages {
-	b.initialize()
-
-	b.lock.RLock()
-	messages, exists := b.pendingMessages[string(topic)]
-	b.lock.RUnlock()
-
-	if exists {
-		return messages
-	}
-
-	verifYield("getOrCreate:between-lookups")
-
-	b.lock.Lock()
-	defer b.lock.Unlock()
-
-	messages, exists = b.pendingMessages[string(topic)]
-	if !exists {
-		messages = &storedMessages{logger: b.Logger, messageCountPerSender: make(map[uint16]int), lastUsed: atomic.LoadUint64(&b.currentGCEpochNum)}
-	}
-
-	b.pendingMessages[string(topic)] = messages
-	return messages
-}
-
 func (b *Box) storeOrForward(msg *IncMessage) {
 	b.initialize()
 
-	if b.hasStartedSending(msg.Topic) {
+	// Deciding whether the message is forwarded or held, and holding it, is a single critical section:
+	// Send() marks the topic as started and takes the held messages under the same lock, hence a message
+	// is either held before Send() takes the held messages, or it is forwarded.
+	b.lock.Lock()
+
+	if _, started := b.startedSending[string(msg.Topic)]; started {
+		b.lock.Unlock()
 		verifYield("storeOrForward:before-forward")
 		b.MessageHandler.HandleMessage(msg)
 		return
 	}
 
-	verifYield("storeOrForward:after-started-check")
-
-	var tooManyTopicsFromSender bool
-
-	b.lock.RLock()
-	if activeTopicsFromSource, exists := b.totalInFlightTopicsBySender[msg.Source]; exists {
-		tooManyTopicsFromSender = len(activeTopicsFromSource) > b.MaxInFlightTopicsBySender
-	}
-	b.lock.RUnlock()
-
-	if tooManyTopicsFromSender {
+	if activeTopicsFromSource, exists := b.totalInFlightTopicsBySender[msg.Source]; exists && len(activeTopicsFromSource) > b.MaxInFlightTopicsBySender {
+		b.lock.Unlock()
 		b.Logger.Warnf("Received too many topics from %d (limit is %d)", msg.Source, b.MaxInFlightTopicsBySender)
 		return
 	}
-
-	verifYield("storeOrForward:before-mark")
-
-	b.markTopicForSender(msg)
-
-	verifYield("storeOrForward:after-mark")
-
-	messages := b.getOrCreateMessagesByTopic(msg.Topic)
-
-	verifYield("storeOrForward:before-add")
-
-	messages.add(msg, atomic.LoadUint64(&b.currentGCEpochNum))
-
-	verifYield("storeOrForward:after-add")
-}
-
-func (b *Box) markTopicForSender(msg *IncMessage) {
-	b.lock.Lock()
-	defer b.lock.Unlock()
 
 	if _, exists := b.totalInFlightTopicsBySender[msg.Source]; !exists {
 		b.totalInFlightTopicsBySender[msg.Source] = make(map[string]struct{})
 	}
 	b.totalInFlightTopicsBySender[msg.Source][string(msg.Topic)] = struct{}{}
+
+	messages, exists := b.pendingMessages[string(msg.Topic)]
+	if !exists {
+		messages = &storedMessages{logger: b.Logger, messageCountPerSender: make(map[uint16]int), lastUsed: atomic.LoadUint64(&b.currentGCEpochNum)}
+		b.pendingMessages[string(msg.Topic)] = messages
+	}
+
+	messages.add(msg, atomic.LoadUint64(&b.currentGCEpochNum))
+
+	b.lock.Unlock()
+
+	verifYield("storeOrForward:after-add")
 }
 
 func (b *Box) initialize() {
@@ -204,17 +169,6 @@ func (b *Box) initialize() {
 		b.totalInFlightTopicsBySender = make(map[uint16]map[string]struct{})
 		b.startClock()
 	})
-}
-
-func (b *Box) hasStartedSending(topic []byte) bool {
-	b.initialize()
-
-	b.lock.RLock()
-	defer b.lock.RUnlock()
-
-	_, exists := b.startedSending[string(topic)]
-
-	return exists
 }
 
 func (b *Box) maybeGC() {
